@@ -166,6 +166,8 @@ def check(rep, tier, seed):
     # corpus first: the recorded self-feeding macro
     selfmac = {"scenario": {"calls": 1, "no_snapshot": True}, "chunks": [b"a"], "inputrc": "\"a\": \"a\"\n", "step_timeout": 3.0}
     jobs.insert(0, selfmac)
+    # ... and the minimised witness of the panic fixed by e7dc7b2: vi-match-bracket on a closing bracket with no opener
+    jobs.append({"scenario": {"calls": 1, "no_snapshot": True}, "chunks": [b"a", b"]", b"\x1b", b"%"], "inputrc": "set editing-mode vi\n"})
     res = P.run_many(jobs, confirm_timing=False)
     # spin / hang / died are decided by timers: a session classified that way (and not a recorded finding) is run again on its
     # own, with more time, before it counts
